@@ -304,3 +304,37 @@ Lemma client_records_exist_and_belong : forall a c0 ks k ik,
 Proof.
   intros a c0 ks k ik (_ & _ & [_ C] & _) E Hin. destruct (C c0 ks E) as (_ & _ & Ow). apply Ow; auto.
 Qed.
+
+(** ---- the property stated directly over histories ("at every moment"), round 7 ---- *)
+Section AtEveryMoment.
+  Variables (c : cfg) (hashf : skey -> N) (ops : list op) (t0 : N).
+  Hypothesis W : Forall op_wf ops.
+  Let a := run_all c hashf (actor_init t0) ops.
+
+  Lemma history_counters_match k s :
+    sget k (a_svcs a) = Some s ->
+    s_size s = Z.of_nat (length (query_all_instances a k)) /\
+    s_hsize s = Z.of_nat (length (filter i_healthy (query_all_instances a k))).
+  Proof. apply counters_match_listing. apply Inv_reachable; exact W. Qed.
+
+  Lemma history_perpetual_set k s ik :
+    sget k (a_svcs a) = Some s ->
+    NoDup (s_perp s) /\ (In ik (s_perp s) <-> exists i, iget ik (s_insts s) = Some i /\ i_ephemeral i = false).
+  Proof. apply perpetual_set_is_non_ephemeral. apply Inv_reachable; exact W. Qed.
+
+  Lemma history_index_once :
+    NoDup (ni_keys (a_index a)) /\
+    (forall k, In k (ni_keys (a_index a)) <-> sget k (a_svcs a) <> None) /\
+    ni_size (a_index a) = N.of_nat (length (ni_keys (a_index a))).
+  Proof. apply index_lists_each_service_once. apply Inv_reachable; exact W. Qed.
+
+  Lemma history_client_records c0 ks k ik :
+    cget c0 (a_clients a) = Some ks -> In (k, ik) ks ->
+    exists i, stored a k ik = Some i /\ i_client i = c0.
+  Proof. apply client_records_exist_and_belong. apply Inv_reachable; exact W. Qed.
+
+  (** a service that exists after a history and is gone one step later had no instances *)
+  Lemma history_dropped_only_when_empty o k s :
+    sget k (a_svcs a) = Some s -> sget k (a_svcs (fst (step c hashf a o))) = None -> s_insts s = [].
+  Proof. apply dropped_only_when_empty. apply Inv_reachable; exact W. Qed.
+End AtEveryMoment.
